@@ -48,7 +48,13 @@ def kernel_rule(ctx, p, K):
     k = S_(l.var)
     ctx.ob(rule, f.key + ":all-points", is_full_range(l, [S_("grid.shape[0]")]) and mv.idx[0] == k and all(x == SLICE for x in mv.idx[1:]) and mv.op == "=", where=f, node=mv.node, construct=f"{l!r}; idx {list(map(repr, mv.idx))}",
            message="every input row k is considered and, if moved, written back to the same row k")
-    c0, c1 = E_("border_origin", ZERO), E_("border_origin", ONE)
+    # the relocation centre: the local 2-vector that is filled component by component (whatever it is called)
+    two = {}
+    for s_ in S.stores:
+        if s_.local and s_.idx in ((ZERO,), (ONE,)) and not s_.loops:
+            two.setdefault(s_.arr, set()).add(s_.idx)
+    BO = next((nm_ for nm_, ix_ in two.items() if ix_ == {(ZERO,), (ONE,)}), "border_origin")
+    c0, c1 = E_(BO, ZERO), E_(BO, ONE)
 
     def rad(name, idx):
         return Poly.fn("sqrt", (E_(name, idx, ZERO) - c0) ** 2 + (E_(name, idx, ONE) - c1) ** 2)
@@ -58,7 +64,7 @@ def kernel_rule(ctx, p, K):
     Rb_closest = rad("border_grid", closest)
     mf = Rb_closest / r_k
     # centroid
-    bo = {s.idx: value_poly(s.value) for s in S.stores_to("border_origin")}
+    bo = {s.idx: value_poly(s.value) for s in S.stores_to(BO)}
     okc = bo == {(ZERO,): Poly.fn("mean", E_("border_grid", S_(":"), ZERO)), (ONE,): Poly.fn("mean", E_("border_grid", S_(":"), ONE))}
     ctx.ob(rule, f.key + ":centroid", okc, where=f, node=f.node, construct=str({repr(i): repr(v) for i, v in bo.items()}), message="the relocation centre must be the centroid (mean y, mean x) of the border points")
     # guards
